@@ -56,7 +56,7 @@ PROPS["C17"] = {
 
 PROPS["C11"] = {
     "harness": {"kind": "cmd", "cmd": "c11"},
-    "extra_harnesses": [{"cmd": "nodewire", "tag": "nodewire"}],
+    "extra_harnesses": [{"cmd": "nodewire", "tag": "nodewire"}, {"kind": "overlay", "pkg": "pkg/evmclient", "pkgname": "evmclient", "files": ["evmclient/stub_test.go", "evmclient/c09_test.go"], "test": "TestVerifC09Batch", "tag": "c09batch"}],
     "level_text": "Theorems: the check answers yes iff both reads were obtained and decoded and amount >= minimum (any call or decoding failure yields no; a return shorter than 32 bytes is a failure); for all values < 2^256 the decoded words are the on-chain numbers (big-endian round trip); stake/prepay hands exactly (registry address, amount as value, 4-byte selector) to the evm client and reports success iff send succeeded and the receipt has status 1. Tied to both real wrappers over the repository's mock evm client: exhaustive fault placement x return shapes {error, empty, 31, 32, 33, 64 bytes} x boundary value pairs up to 2^256-1 x every receipt outcome. Whole node (node.NewNode, see C07): stake is read at the configured provider registry, allowance at the configured bidder registry, stake/prepay pay those contracts the requested value and report the balance afterwards; any mis-wiring of the reads yields no commitment (theorem) and is observed end to end.",
     "level_note": "Trusted: Lean kernel; differential harness; go-ethereum abi.Pack/Unpack (modelled as: <32 bytes error, else first word big-endian; compared on every case); contracts-abi metadata for selectors.",
     "nontrivial_rule": "distinct (tag, which registry, model observation) cells",
@@ -82,6 +82,7 @@ PROPS["C03"] = {
 PROPS["C18"] = {
     "harness": {"kind": "overlay", "pkg": "pkg/p2p/libp2p", "pkgname": "libp2p",
                 "files": ["libp2p/c17_test.go", "libp2p/c04_test.go", "libp2p/c18_test.go"], "test": "TestVerifC18"},
+    "extra_harnesses": [{"kind": "overlay", "pkg": "pkg/p2p/libp2p", "pkgname": "libp2p", "files": ["libp2p/c04_test.go"], "test": "TestVerifC04", "tag": "c04"}],
     "level_text": "Theorems: for every scalar d < 2^256 (hence every count of leading zero bytes) the padded key has exactly 32 bytes and denotes d; the key extracted from a secp256k1 identity peer id is the key it was built from; therefore the address derived from the node's transport identity equals the address of the key's public point, for every hash function and every curve satisfying the compress/decompress round trip. Tied to the real pipeline (PadKeyTo32Bytes, UnmarshalSecp256k1PrivateKey, peer id, GetEthAddressFromPeerID) against crypto.PubkeyToAddress for keys with exactly 0..31 leading zero bytes, scalars 1 and n-1, keys whose public coordinates have leading zero bytes, random keys; padded bytes, peer-id bytes and addresses are compared with the model's (Lean Keccak); a sample of keys goes through the real libp2p.New.",
     "level_note": "Trusted: Lean kernel; harness; the secp256k1 group law and point compression are parameters (the round-trip law is a hypothesis of the coherence theorem, discharged by go-ethereum on every generated key); libp2p's peer-id encoding is modelled at byte level for secp256k1 identity ids and compared on every case.",
     "nontrivial_rule": "distinct (tag, number of leading zero bytes of the key) classes, counted as distinct (tag, model pad prefix) pairs",
@@ -140,6 +141,7 @@ PROPS["C19"] = {
 
 PROPS["C15"] = {
     "harness": {"kind": "cmd", "cmd": "c15"},
+    "extra_harnesses": [{"kind": "overlay", "pkg": "pkg/p2p/libp2p", "pkgname": "libp2p", "files": ["libp2p/c14_test.go"], "test": "TestVerifC14", "tag": "c14"}],
     "level_text": "Theorems by induction over arbitrary event histories (connected / add / disconnected / gossip, any roles incl. bootnode and unknown, failing lookups, lying gossip records): a peer of role provider or bidder is reported iff the latest event about that (address, role) added it (refinement of the two maps to the history-defined view); on connect the newcomer is sent exactly the other known providers whose lookup succeeded - never its own record, never a non-provider - and nothing if there is none; iff the newcomer is a provider (whose own lookup succeeds) every known bidder is sent exactly its record; gossip dials exactly the listed addresses not in the view and adds exactly the peers the handshakes proved (address and role as returned by Connect). Tied to the real Topology wired to the real Discovery (as announcer and as gossip handler) over a scripted p2p service; sets compared as sorted multisets after every event.",
     "level_note": "Trusted: Lean kernel; harness (dials are gated so that every entry of a gossip list is checked against the view before any dial completes - the schedule the model fixes; lists are kept below the 10-worker semaphore); Go map iteration order is immaterial (outputs sorted).",
     "nontrivial_rule": "distinct (tag, model step list) pairs; an event list is non-trivial if it contains a connect of a provider or a gossip list",
@@ -149,6 +151,7 @@ PROPS["C15"] = {
 PROPS["C14"] = {
     "harness": {"kind": "overlay", "pkg": "pkg/p2p/libp2p", "pkgname": "libp2p",
                 "files": ["libp2p/c14_test.go"], "test": "TestVerifC14"},
+    "extra_harnesses": [{"kind": "overlay", "pkg": "pkg/p2p/libp2p", "pkgname": "libp2p", "files": ["libp2p/c04_test.go"], "test": "TestVerifC04", "tag": "c04"}],
     "level_text": "Theorems for every sequence (hence every interleaving of the atomic, mutex-protected registry operations) of admissions incl. repeated and multi-connection ones, connection closures tracked or not, lookups, stream registrations/removals - under the hypothesis (discharged by C04) that the recorded address is an injective function of the peer id: an invariant (address map and id map mutually inverse; peer registered iff its tracked connection set is non-empty; stream table domain = registered peers) holds in every reachable state; the unguarded dereference in Disconnected is unreachable (no panic); closing the last tracked connection removes the peer from both maps, cancels every recorded handler context and appends exactly one notification; untracked closures change nothing; and a refinement theorem: the four concrete maps are at all times the projections of an abstract one-map specification (peer id -> proven peer, open connections, handler streams), so lookups by id and address, cancellations and notifications are those of the abstract machine. Tied to the real peerRegistry with fake network.Conn/Stream values: exhaustive sequences over 2 peers x 2 connections x 2 streams, random long ones, incl. the lookup/close/addStream schedule of the handler wrapper.",
     "level_note": "Trusted: Lean kernel; harness; libp2p delivering Disconnected for every closed connection; atomicity of each registry method (one mutex). The two-step stream opening of the wrapper is modelled as two steps: a handler whose peer disconnects between getPeer and addStream runs with a context the registry never cancels (allowed by the statement as written, recorded in DESIGN.md as D14).",
     "nontrivial_rule": "distinct (tag, model snapshot list) pairs",
